@@ -106,20 +106,30 @@ def assembled_string(s, r):
     n = len(s)
     if n == 0:
         return PauliString(pauli_str=s)
+    def seen(p):
+        """everything is observed BEFORE the object is edited: whatever an observation caches must not survive the edit"""
+        try:
+            str(p); repr(p); hash(p); len(p); p == p; [str(x) for x in p]; p.get_index() if len(p) <= 16 else None
+            p.commutes_with(p); p.get_count_non_trivially(); p.is_identity(); p.get_matrix() if len(p) <= 3 else None
+        except Exception:
+            pass
+        return p
     k = r.randrange(10)
     if k == 0:
-        p = PauliString(n=n)
+        p = seen(PauliString(n=n))
         i = 0
         while i < n:
             b = r.randint(2, 3)
             p.set_substring(i, s[i:i + b]); i += b
+            seen(p) if r.random() < 0.5 else None
         return p
     if k == 1:
-        p = PauliString(pauli_str="".join(r.choice("IXYZ") for _ in range(n)))
+        p = seen(PauliString(pauli_str="".join(r.choice("IXYZ") for _ in range(n))))
         i = 0
         while i < n:
             b = r.randint(1, 4)
             p[i] = s[i:i + b]; i += b
+            seen(p) if r.random() < 0.5 else None
         return p
     if k == 2 and n >= 2:
         h = r.randint(1, n - 1)
@@ -131,12 +141,11 @@ def assembled_string(s, r):
         t = s.rstrip("I") or s[:1]
         return PauliString(pauli_str=t).expand(n)
     if k == 5:
-        p = PauliString(pauli_str="".join(r.choice("XYZ") for _ in range(n))).copy()
-        hash(p); p.get_index() if n <= 20 else None
+        p = seen(PauliString(pauli_str="".join(r.choice("XYZ") for _ in range(n))).copy())
         p.set_substring(0, PauliString(pauli_str=s))
         return p
     if k == 6:
-        p = get_identity(n)
+        p = seen(get_identity(n))
         for i, ch in enumerate(s):
             if ch != "I":
                 p.set_substring(i, get_single(1, 0, ch))
@@ -144,7 +153,7 @@ def assembled_string(s, r):
     if k == 8:
         # a TEMPLATE whose copies were edited in place afterwards (the template itself must stay what it was)
         import copy as _copy
-        p = PauliString(pauli_str=s)
+        p = seen(PauliString(pauli_str=s))
         for c in (p.copy(), _copy.copy(p), p.get_substring(0, n), p.expand(n)):
             for _ in range(2):
                 i = r.randrange(n)
